@@ -56,8 +56,30 @@ def eval_jobs(tier):
     return jobs
 
 
+def fault_jobs(tier):
+    """the likelihood raises inside a batch and the exception reaches the
+    caller: the stored columns still belong together afterwards"""
+    from vlib.runner import Job
+    out = []
+    for cfg in [dict(m=[1, 1], shell=1, n_batch=2, explored=True,
+                     end_exp=[1, 1], blobs='scalar', fail_call=1),
+                dict(m=[1, 1], shell=0, n_batch=1, explored=True,
+                     end_exp=[1, 1], fail_call=0),
+                dict(m=[1, 1], shell=0, n_batch=2, explored=True,
+                     end_exp=[1, 1], vectorized=True, blobs='scalar',
+                     fail_call=1),
+                dict(m=[1, 1, 0], prov=[0], shell=-1, n_batch=1,
+                     explored=False, fail_call=0),
+                dict(m=[1, 1], shell=-1, n_batch=2, explored=False,
+                     blobs='scalar', fail_call=1)]:
+        out.append(Job('harness.sampler_steps:add_samples',
+                       dict(cfg, props=['C03']), pkg_key='sampler',
+                       max_paths=3000))
+    return out
+
+
 def jobs(tier):
-    return (eval_jobs(tier) +
+    return (eval_jobs(tier) + fault_jobs(tier) +
             common.add_samples_jobs(tier, ['C03'], blobs=(None, 'scalar'),
                                     vectorized=(False, True)) +
             common.add_bound_jobs(tier, ['C03'], blobs=(None, 'scalar')) +
